@@ -363,8 +363,11 @@ class Check:
         ev = dict(property_id=self.prop, tier=self.tier, seed=self.seed, level=getattr(self.pl, "LEVEL", "proof"),
                   coverage=coverage, assumptions=getattr(self.pl, "ASSUMPTIONS", []),
                   wall_s=round(time.time() - self.t0, 2), violations=len(self.violations))
-        os.makedirs(os.path.join(VERIF, "evidence"), exist_ok=True)
-        with open(os.path.join(VERIF, "evidence", self.prop + ".json"), "w") as f:
+        # evidence/<id>.json always describes a run against /repo itself; a run pointed at another copy
+        # of json-c (VERIF_REPO: seeded-change experiments) writes beside it, into build/evidence-alt
+        edir = os.path.join(VERIF, "evidence") if os.path.realpath(REPO) == "/repo" else os.path.join(VERIF, "build", "evidence-alt")
+        os.makedirs(edir, exist_ok=True)
+        with open(os.path.join(edir, self.prop + ".json"), "w") as f:
             json.dump(ev, f, indent=1, sort_keys=True)
         shutil.rmtree(self.work, ignore_errors=True)
         return exit_code
